@@ -63,8 +63,8 @@ def gen_leaf(r, name, p):
     rec = {"packageScript": "echo %s" % name}
     nread = r.randrange(0, 3)
     reads = r.sample(VARS, nread)
-    if r.random() < 0.35:
-        reads.append(r.choice(EXTRA))
+    if r.random() < 0.45:
+        reads.append(r.choice(EXTRA + ["SBV"]))
     if r.random() < 0.6:
         rec["environment"] = {"X_" + name.upper(): tmpl(r, allv)}
         reads.append("X_" + name.upper())
@@ -203,7 +203,7 @@ def gen_project(r, inherit_false=0.06):
     for i in range(nr):
         cfg = dict(base, over=dict(base["over"]))
         if i:
-            dim = r.choice(["env", "env", "env", "sandbox", "tool", "lv", "none", "picks", "extra", "extra"])
+            dim = r.choice(["env", "env", "env", "sandbox", "sandbox", "tool", "lv", "lv", "none", "picks", "extra", "extra"])
             if dim == "env":
                 v = r.choice(VARS)
                 if v in cfg["over"] and r.random() < 0.3:
@@ -239,7 +239,7 @@ def gen_project(r, inherit_false=0.06):
 
 
 def gen_invocation(r):
-    inv = {"defines": {}, "config": [], "sandbox": r.random() < 0.4}
+    inv = {"defines": {}, "config": [], "sandbox": r.random() < 0.5}
     if r.random() < 0.4:
         inv["defines"][r.choice(VARS)] = r.choice(VALUES)
     if r.random() < 0.3:
